@@ -45,7 +45,7 @@ man = {
  'hooks': {'guard': 'PHOTON_VERIF',
            'enable': 'harnesses are compiled with -DPHOTON_VERIF; thread-level checks link a libphoton.so built by cmake -DCMAKE_CXX_FLAGS="-Wno-error -DPHOTON_VERIF" in /verif/.build/photon from /repo\'s working tree (lib/vlib.py photon_lib)',
            'baseline_off_cmd': 'bin/baseline-off',
-           'source_commits': ['9a76167', '5a10adb', '0dc1083', '3c74f99', '0e146a7', '598bacc', '78d7b1e', '9372bf2'],
+           'source_commits': ['9a76167', '5a10adb', '0dc1083', '3c74f99', '0e146a7', '598bacc', '78d7b1e', '9372bf2', 'a599d49'],
            'add_only': True},
  'engines': [
   {'name': 'E1', 'path': 'lib/vlib.py (DiffCheck)', 'serves_properties': [], 'kind_free_text': 'pure differential: extracted Coq model vs C++ harness compiled from /repo on the same case file, plus a python oracle of the property on the implementation output'},
